@@ -158,4 +158,38 @@ theorem mapM'_groups {ε : Type} (f : β → Except ε γ) : ∀ (gs : List (Lis
       rw [← ih]
       cases h2 : mapM' (fun g => mapM' f g) gs <;> simp
 
+/-- group `g` of `chunks n l` is the window `l[g·n .. g·n + n)` (shorter only at the end), and there
+    is a group `g` exactly while `g·n` is inside the list -/
+theorem chunksAux_getElem? (n : Nat) (hn : 0 < n) : ∀ (fuel : Nat) (l : List β), l.length ≤ fuel → ∀ g : Nat,
+    (chunksAux n fuel l)[g]? = if g * n < l.length then some ((l.drop (g * n)).take n) else none := by
+  intro fuel
+  induction fuel with
+  | zero =>
+    intro l hl g
+    have : l.length = 0 := by omega
+    simp [chunksAux, this]
+  | succ f ih =>
+    intro l hl g
+    cases l with
+    | nil => simp [chunksAux]
+    | cons x xs =>
+      simp only [chunksAux]
+      cases g with
+      | zero => simp
+      | succ k =>
+        have hlen : ((x :: xs).drop n).length ≤ f := by
+          simp only [List.length_drop, List.length_cons] at *; omega
+        rw [List.getElem?_cons_succ, ih _ hlen k]
+        have e : (k + 1) * n = n + k * n := by rw [Nat.succ_mul]; omega
+        simp only [List.length_drop, List.drop_drop, e]
+        by_cases h : k * n < (x :: xs).length - n
+        · have h' : n + k * n < (x :: xs).length := by omega
+          rw [if_pos h, if_pos h']
+        · have h' : ¬ (n + k * n < (x :: xs).length) := by omega
+          rw [if_neg h, if_neg h']
+
+theorem chunks_getElem? (n : Nat) (hn : 0 < n) (l : List β) (g : Nat) :
+    (chunks n l)[g]? = if g * n < l.length then some ((l.drop (g * n)).take n) else none :=
+  chunksAux_getElem? n hn l.length l (Nat.le_refl _) g
+
 end L
